@@ -1,3 +1,4 @@
+#![allow(dead_code)]
 mod c19;
 mod event;
 mod gen;
